@@ -1,5 +1,5 @@
 import string
-from typing import Union
+from typing import Any, Union
 
 from flamapy.core.models.ast import ASTOperation, Node
 from flamapy.core.transformations import ModelToText
@@ -93,14 +93,25 @@ class UVLWriter(ModelToText):
         for attribute in feature.get_attributes():
             attribute_str = safename(attribute.name)
             if attribute.default_value is not None:
-                if isinstance(attribute.default_value, str):
-                    attribute_str += f" '{attribute.default_value}'"
-                elif isinstance(attribute.default_value, bool):
-                    attribute_str += f" {str(attribute.default_value).lower()}"
-                else:
-                    attribute_str += f" {attribute.default_value}"
+                attribute_str += f" {cls.serialize_value(attribute.default_value)}"
             attributes.append(attribute_str)
         return f'{{{", ".join(attributes)}}}' if attributes else ""
+
+    @classmethod
+    def serialize_value(cls, value: Any) -> str:
+        """UVL syntax of an attribute value (lists and nested attribute maps included)."""
+        if isinstance(value, str):
+            return f"'{value}'"
+        if isinstance(value, bool):
+            return str(value).lower()
+        if isinstance(value, list):
+            return f'[{", ".join(cls.serialize_value(item) for item in value)}]'
+        if isinstance(value, dict):
+            items = [safename(str(key)) if item is None
+                     else f"{safename(str(key))} {cls.serialize_value(item)}"
+                     for key, item in value.items()]
+            return f'{{{", ".join(items)}}}'
+        return str(value)
 
     @staticmethod
     def serialize_relation(rel: Relation) -> str:
